@@ -2936,6 +2936,23 @@ func lemmaForwardSession(raw *rawEnvelope) (e *Session, e3 *Session, accepted bo
 //@ struct Server
 //@   chaninv transportChan : v != nil && !payloadnil(v) && v.nSentSes == 0 && v.nRecv == 0
 
+// The producer side of the queue: what consumeTransports assumes about a queued
+// transport (the channel invariant above) is established where it is sent.
+//@ interface TransportListener
+//@ method TransportListener.Accept(l, ctx) (t, err)
+//@   modifies nothing
+//@   ensures err == nil ==> t != nil && !payloadnil(t) && t.nSentSes == 0 && t.nRecv == 0
+//@   note a listener hands out connections on which nothing has been exchanged yet
+
+//@ func acceptTransports
+//@   props C17
+//@   requires ctx != nil && listener != nil && c != nil
+//@   modifies nothing
+//@   chaninv-local c : v != nil && !payloadnil(v) && v.nSentSes == 0 && v.nRecv == 0
+//@   loop 0 invariant ctx != nil && listener != nil && c != nil
+//@ census [C17] callers acceptTransports : (*Server).ListenAndServe  ## the only producer of the transport queue (ListenAndServe passes srv.transportChan; that call is not under contract)
+//@ census [C17] senders Server.transportChan : none
+
 //@ func (*Server).consumeTransports
 //@   props C17
 //@   requires srv != nil && srv.config != nil && srv.mux != nil && ctx != nil
